@@ -23,6 +23,8 @@ ChunkStore::ChunkStore(Config config)
         storage_root_ = std::filesystem::path(config.storage_directory.empty() ? "storage" : config.storage_directory);
         if (!ensure_storage_directory()) {
             persistent_enabled_ = false;
+        } else if (wipe_on_expiry_) {
+            purge_orphaned_chunk_files();
         }
     }
 }
@@ -216,6 +218,24 @@ bool ChunkStore::secure_wipe_file(const std::filesystem::path& path) const {
 
     std::filesystem::remove(path, ec);
     return !std::filesystem::exists(path, ec);
+}
+
+void ChunkStore::purge_orphaned_chunk_files() const {
+    // The chunk index and its deadlines live in memory only. A chunk file found at start-up was
+    // left by an earlier instance (or by an interrupted store or wipe): no record refers to it, so
+    // it could never be served or swept again. Wipe it now instead of keeping it forever.
+    std::error_code ec;
+    std::vector<std::filesystem::path> orphans;
+    for (std::filesystem::directory_iterator it(storage_root_, ec), end; !ec && it != end; it.increment(ec)) {
+        std::error_code status_ec;
+        if (it->path().extension() == ".chunk"
+            && std::filesystem::is_regular_file(it->symlink_status(status_ec))) {
+            orphans.push_back(it->path());
+        }
+    }
+    for (const auto& path : orphans) {
+        secure_wipe_file(path);
+    }
 }
 
 void ChunkStore::wipe_persisted_chunk(const ChunkRecord& record) {
